@@ -55,6 +55,41 @@ def limb_patterns(width):
     return pats
 
 
+def limb_compare_patterns(m, width, rng=None, limit=None):
+    """Raw width-bit values whose 64-bit limbs stand in every combination of (<, =, >) to the limbs of m: the inputs
+    that decide a limb-wise lexicographic range check (ties on the leading limbs, a smaller limb above larger ones)."""
+    import itertools
+    nl = width // 64
+    M = (1 << 64) - 1
+    ml = [(m >> (64 * i)) & M for i in range(nl)]
+    out = set()
+    pats = list(itertools.product((-1, 0, 1), repeat=nl))
+    if limit and len(pats) > limit:
+        r = rng or random.Random(0)
+        keep = [p for p in pats if sum(1 for x in p if x) <= 2 or all(x == p[0] for x in p)]
+        pats = keep + r.sample(pats, limit)
+    for p in pats:
+        for far in (False, True):
+            v, ok = 0, True
+            for i, rel in enumerate(p):
+                if rel == 0:
+                    l = ml[i]
+                elif rel < 0:
+                    if ml[i] == 0:
+                        ok = False
+                        break
+                    l = 0 if far else ml[i] - 1
+                else:
+                    if ml[i] == M:
+                        ok = False
+                        break
+                    l = M if far else ml[i] + 1
+                v |= l << (64 * i)
+            if ok:
+                out.add(v)
+    return sorted(out)
+
+
 def mont_domain_boundary(m):
     """Field elements whose INTERNAL (Montgomery) representation is a limb-boundary pattern: a = v * R^-1 mod m for
     v in {single non-zero limb, all-ones limbs, 2^63 in a limb followed by an all-ones limb (carry chains), ...}.
@@ -156,11 +191,69 @@ def structured_scalars(rng, full256=False, extra_random=0):
     s.add(int("a" * 63, 16) >> 1)
     s.add(int("3" * 63, 16))
     s.add(int("e" * 63, 16) >> 1)
+    s |= set(ladder_coincidences())
     for _ in range(extra_random):
         s.add(rng.getrandbits(top))
         s.add(rng.randrange(R))
         s.add(rng.getrandbits(rng.randrange(1, top + 1)))
     return sorted(x for x in s if 0 <= x < (1 << top))
+
+
+def comb_coincidences(cols, width):
+    """Scalars for which a left-to-right comb ladder (cols columns of width bits: acc = 2*acc + T[bits of the row]) has
+    accumulator == +-addend (mod r) at some row, i.e. an equal-operand (doubling) or inverse-operand addition inside
+    the ladder. cols=1 is plain double-and-add, (4,64) the 3-entry and (8,32) the 256-entry precomputation."""
+    out = set()
+    mask = (1 << width) - 1
+    for b in range(1, 1 << cols):
+        tb = sum(1 << (width * i) for i in range(cols) if b >> i & 1)
+        for m in range(0, 5):
+            for sign in (1, -1):
+                x = m * R + sign * tb
+                if x <= 0 or x & 1:
+                    continue
+                a_ = x >> 1
+                if a_ >> (cols * width):
+                    continue
+                a = [(a_ >> (width * i)) & mask for i in range(cols)]
+                for j in range(0, width - 1):
+                    if any(v >> (width - 1 - j) for v in a):
+                        break
+                    k = sum(((a[i] << (j + 1)) | ((b >> i & 1) << j)) << (width * i) for i in range(cols))
+                    out.add(k)
+                    out.add(k | sum(((1 << j) - 1) << (width * i) for i in range(cols)))
+    return sorted(out)
+
+
+def wnaf_coincidences(w):
+    """Scalars whose (right-to-left, signed odd digit) windowed recoding makes the left-to-right evaluation add a table
+    entry equal to the accumulator: k = m*r + 2*d with d the lowest digit of k itself; both digit-range conventions."""
+    out = set()
+    for bits in (w, w + 1):
+        for m in (1, 2, 3):
+            d = (-m * R) % (1 << bits)
+            if d >= 1 << (bits - 1):
+                d -= 1 << bits
+            if d % 2 == 0:
+                continue
+            k = m * R + 2 * d
+            for j in (0, 1, 7):
+                if 0 < (k << j) < (1 << 255):
+                    out.add(k << j)
+    return sorted(out)
+
+
+_LADDER = None
+
+
+def ladder_coincidences():
+    global _LADDER
+    if _LADDER is None:
+        s = set(comb_coincidences(1, 256)[:40]) | set(comb_coincidences(4, 64)) | set(comb_coincidences(8, 32))
+        for w in range(2, 23):
+            s |= set(wnaf_coincidences(w))
+        _LADDER = sorted(s)
+    return _LADDER
 
 
 def kclass(k):
@@ -402,3 +495,27 @@ def poly_roots_fq(coeffs, rng=None):
                 return
     split(g)
     return sorted(set(roots))
+
+
+_PREFIX_PTS = {}
+
+
+def prefix_points(g):
+    """Subgroup points one of whose coordinates (as a 48-byte big-endian string) starts with the leading 16 bits of the
+    modulus or with 16 zero bits; found once by search (tools/find_prefix_points.py), recomputed here as [k]g and the
+    class re-derived from the coordinates. Returns [(tag, point)]."""
+    if g not in _PREFIX_PTS:
+        import json, os
+        d = json.load(open(os.path.join(os.path.dirname(os.path.abspath(__file__)), "data", "prefix_points.json")))[str(g)]
+        c = E1 if g == 1 else E2
+        gen = g1_gen() if g == 1 else g2_gen()
+        out = []
+        for ks in d.values():
+            for k in ks:
+                P = c.mul(k, gen)
+                comps = [P[0], P[1]] if g == 1 else [P[0][1], P[0][0], P[1][1], P[1][0]]
+                tags = [("hi" if (v >> 368) == (Q >> 368) else "lo") for v in comps if (v >> 368) in (0, Q >> 368)]
+                assert tags, "prefix_points.json does not match the model"
+                out.append(("enc-" + tags[0], P))
+        _PREFIX_PTS[g] = out
+    return _PREFIX_PTS[g]
